@@ -382,7 +382,7 @@ func runC06(c *Ctx) {
 		}
 		for _, in := range findU(f, func(in ssa.Instruction) bool { return r.isStoreTo(in, r.count) }) {
 			o.Site(in.Pos(), "store to count in %s", fname(f))
-			if f == W && isInc(in) || f == R && isDec(in) {
+			if isIn(f, W) && isInc(in) || isIn(f, R) && isDec(in) {
 				continue
 			}
 			if isFreshBase(in.(*ssa.Store).Addr.(*ssa.FieldAddr).X) {
